@@ -57,6 +57,12 @@ def gen_case(streams, tier):
                        class_pool=['bit', 'small', 'mid', 'w32', 'w64', 'w128'],
                        mem_wide_aw=0.0, mem_aw=(1, 5), rom_aw_max=4, regs=(0, 3))
     script = gen.gen_script(g, cfg)
+    stage = None
+    if g.random() < 0.3:
+        # the design is exported once, then extended on the same Block, then exported for real
+        s2, st = gen.add_late_cone(g, script)
+        if s2 is not None:
+            script, stage = s2, st
     ncyc = streams['inputs'].randint(2, 10)
     kind = g.choice(['sim', 'sim', 'fast', 'fast', 'compiled'] if g.random() < 0.5 else ['sim', 'fast'])
     has_mem = any(not m.get('rom') for m in script['mems'])
@@ -72,6 +78,7 @@ def gen_case(streams, tier):
     return {'prop': ID, 'script': script, 'init': init, 'kind': kind, 'add_reset': add_reset,
             'start': start, 'second_reset': second, 'garbage_seed': f.getrandbits(32),
             'cycles': gen.gen_inputs(streams['inputs'], script, ncyc),
+            'stage': stage,
             'sched': world.gen_sched(streams)}
 
 
@@ -117,9 +124,20 @@ def run(case, res):
     sched = case['sched']
     add_reset = case['add_reset']
     world.setup_world(sched)
-    b = world.build_dut(script, sched)
+    stage = None
+    if case.get('stage'):
+        def early_export(built):
+            try:
+                with pyrtl.set_working_block(built.block, no_sanity_check=True):
+                    pyrtl.output_to_verilog(io.StringIO(), add_reset=add_reset, block=built.block)
+                res.faults.hit('exported_before_extension')
+            except pyrtl.PyrtlError:
+                res.probes.hit('early_export_refused')
+        stage = dict(case['stage'], hook=early_export)
+    b = world.build_dut(script, sched, stage=stage)
     blk = b.block
-    tags = ['add_reset:%s' % add_reset, 'start:' + case['start']]
+    tags = ['add_reset:%s' % add_reset, 'start:' + case['start']] + \
+        (['history:export_extend_export'] if stage else [])
     # ---- export -------------------------------------------------------------------------
     buf = io.StringIO()
     try:
@@ -365,6 +383,12 @@ def candidates(case):
         c['init'] = shrink.remap_init(case['init'], s)
         c['cycles'] = shrink.remap_cycles(case['cycles'], s)
         s.pop('_memremap', None)
+        if case.get('stage'):
+            c['stage'] = gen.restage(s)
+        yield c
+    if case.get('stage'):
+        c = copy.deepcopy(case)
+        c['stage'] = None
         yield c
     if case['init'].get('regs') or case['init'].get('mems') or case['init'].get('default'):
         for part in ('regs', 'mems', 'default'):
